@@ -1687,11 +1687,12 @@ def run(ctx):
                    "C16_roundtrip_partial: the round trip `parse (print cst) = tree cst` (any layout, comments, keyword case) is proved for triples statements "
                    "with `;` / `,` lists, FILTER expressions (|| && ! parentheses, comparisons, function calls, arithmetic), BIND, VALUES, GRAPH, UNION chains, "
                    "sub-selects, optional `.`, nested group patterns, SELECT with DISTINCT / projection / aggregates / FROM / FROM NAMED / GROUP BY / ORDER BY / LIMIT, "
-                   "the PREFIX prologue and the whole request up to end of input, with the fuel of Run.v (C16_roundtrip_statement .. C16_roundtrip_query_default_fuel). "
-                   "NOT proved, checked by the tree and follower streams only: a parenthesised boolean FILTER expression that starts with a function call, "
-                   "the six update forms, exponent numbers, literals with @lang / ^^datatype, long strings, quoted triples and bare identifiers as terms",
+                   "the six update forms with quad blocks and GRAPH templates (plus rejection theorems for the DATA-block checks), the PREFIX prologue and the "
+                   "whole request up to end of input through parse_top, with the fuel of Run.v. NOT proved, checked by the tree and follower streams only: "
+                   "exponent numbers, literals with @lang / ^^datatype, long strings, quoted triples and bare identifiers as terms; a parenthesised FILTER "
+                   "expression starting with a function call whose name is followed by a non-ASCII whitespace character",
                    "extension grammars (RULE, REGISTER/RSP-QL, ML.PREDICT, MODEL / NEURAL RELATION, legacy parse_where): not modelled, totality exercised by the mutant stream only",
-                   "fuel adequacy of the grammar model on ARBITRARY input (parse_top never answers Fuel with the fuel of Run.v) is observed, not proved; for printed requests it is the theorem C16_roundtrip_query_default_fuel",
+                   "fuel adequacy is proved for arbitrary input (C16_fuel_adequate, C16_parser_total_no_fuel): 3 * length + 6 units suffice for every grammar entry",
                    "panic-freedom of the real code is a runtime fact tied to the model by the correspondence check only"]})
 
 
